@@ -211,18 +211,44 @@ def big_part(res, scratch):
         res.nt(fw.h64(["big", v]))
         res.count("files_over_64k")
         compare(res, base, got, f">64 KiB file, {v[0]}", {"part": "big", "variant": list(v)})
+    # 17 records of exactly 64 KiB: every line end sits on a multiple of 64 KiB (1.1 MB files)
+    base = run_gaf_side_padded(scratch, ("plain",), "aplain", aligned=True)
+    for v in (("bgzip64k",), ("pysam",)):
+        got = run_gaf_side_padded(scratch, v, "a" + v[0], aligned=True)
+        res.nt(fw.h64(["aligned", v]))
+        res.count("files_with_line_ends_on_64k_multiples")
+        compare(res, base, got, f"1.1 MB file with line ends on multiples of 64 KiB, {v[0]}", {"part": "big", "variant": list(v), "aligned": True})
 
 
-def run_gaf_side_padded(scratch, variant, tag):
+def pad_exact(recs, n, size=65536):
+    """n records (cycling through recs) whose lines are exactly `size` bytes long including the newline, so that the
+    line ends fall on every multiple of 64 KiB: a reader that works in power-of-two chunks meets a chunk boundary
+    exactly on a newline"""
+    out = []
+    for i in range(n):
+        r = recs[i % len(recs)]
+        base = rgfa.Rec(f"{r.qname}x{i}" if i >= len(recs) else r.qname, *r.cols()[1:], opt=list(r.opt))
+        need = size - 1 - len(base.line()) - len("\tzz:Z:")
+        base.opt = list(base.opt) + ["zz:Z:" + gen._seq(need, i)]
+        assert len(base.line()) + 1 == size
+        out.append(base)
+    return out
+
+
+def run_gaf_side_padded(scratch, variant, tag, aligned=False):
     global view_dataset, sort_dataset
     vd, sd = view_dataset, sort_dataset
 
     def vd2():
         g, u, s_ = vd()
+        if aligned:
+            return g, pad_exact(u, 17), pad_exact(s_, 17)
         return g, vi.pad_records(u, 150_000), vi.pad_records(s_, 150_000)
 
     def sd2():
         g, r = sd()
+        if aligned:
+            return g, pad_exact(r, 17)
         return g, vi.pad_records(r, 150_000)
 
     view_dataset, sort_dataset = vd2, sd2
@@ -244,7 +270,12 @@ def write_graph(path, text):
         fw.write_text(path, text)
 
 
-def run_graph_side(scratch, gz, tag):
+def l_first(text):
+    lines = [l for l in text.split("\n") if l]
+    return "".join(l + "\n" for l in [x for x in lines if x.startswith("L")] + [x for x in lines if not x.startswith("L")][::-1])
+
+
+def run_graph_side(scratch, gz, tag, lfirst=False):
     from gaftools.cli import view, find_path
     from gaftools.cli import realign as R
     import gc
@@ -254,8 +285,9 @@ def run_graph_side(scratch, gz, tag):
     os.makedirs(d, exist_ok=True)
     ext = ".gfa.gz" if gz else ".gfa"
     g, urecs, srecs = view_dataset()
+    order = l_first if lfirst else (lambda t: t)
     gfa = os.path.join(d, "g" + ext)
-    write_graph(gfa, g.text())
+    write_graph(gfa, order(g.text()))
     for kind, recs in (("unstable", urecs), ("stable", srecs)):
         gaf = os.path.join(d, f"{kind}.gaf")
         fw.write_text(gaf, "".join(r.line() + "\n" for r in recs))
@@ -267,7 +299,7 @@ def run_graph_side(scratch, gz, tag):
         out[f"view -f[{kind}]"] = (o.kind, lines if o.kind == "ok" else o.sig())
     sg, srt = sort_dataset()
     sgfa = os.path.join(d, "sg" + ext)
-    write_graph(sgfa, sg.text())
+    write_graph(sgfa, order(sg.text()))
     sgaf = os.path.join(d, "s.gaf")
     fw.write_text(sgaf, "".join(r.line() + "\n" for r in srt))
     outp = os.path.join(d, "sorted.gaf")
@@ -276,7 +308,7 @@ def run_graph_side(scratch, gz, tag):
     rd = os.path.join(d, "ra")
     cfg = rc.make_inputs(rd, 4)
     rgfa_path = os.path.join(rd, "g2" + ext)
-    write_graph(rgfa_path, rc.GFA_TEXT)
+    write_graph(rgfa_path, order(rc.GFA_TEXT))
     routp = os.path.join(rd, "out.gaf")
     if os.path.exists(routp):
         os.remove(routp)
@@ -293,7 +325,7 @@ def run_graph_side(scratch, gz, tag):
     c2 = gen.Chain(["deletion"], chrom="chr2", id_base=40, hap="hB#1#c", decl="rev")
     og = gen.merge_graphs([c1.g, c2.g])
     for by_chrom in (False, True):
-        run = oc.run_order(d, og.text(), "chr2,chr1", by_chrom=by_chrom, with_sequence=True, suffix=ext, tag=f"o{int(by_chrom)}")
+        run = oc.run_order(d, order(og.text()), "chr2,chr1", by_chrom=by_chrom, with_sequence=True, suffix=ext, tag=f"o{int(by_chrom)}")
         if run.outcome.kind != "ok":
             out[f"order_gfa[by_chrom={by_chrom}]"] = (run.outcome.kind, run.outcome.sig())
             continue
@@ -311,11 +343,12 @@ def run_graph_side(scratch, gz, tag):
 
 
 def graph_part(res, scratch):
-    base = run_graph_side(scratch, False, "gplain")
-    got = run_graph_side(scratch, True, "ggz")
-    res.nt(fw.h64("graph-gz"))
-    compare(res, base, got, "gzip-compressed graph", {"part": "graph"})
-    res.count("subcommands_with_compressed_graph", len(base))
+    for lfirst in (False, True):
+        base = run_graph_side(scratch, False, "gplain", lfirst)
+        got = run_graph_side(scratch, True, "ggz", lfirst)
+        res.nt(fw.h64(["graph-gz", lfirst]))
+        compare(res, base, got, "gzip-compressed graph" + (" (L lines before S lines)" if lfirst else ""), {"part": "graph"})
+        res.count("subcommands_with_compressed_graph", len(base))
 
 
 def run_shard(spec, tier, scratch):
@@ -334,9 +367,9 @@ def replay(case, scratch):
     if case["part"] == "graph":
         graph_part(res, scratch)
     elif case["part"] == "big":
-        base = run_gaf_side_padded(scratch, ("plain",), "bplain")
+        base = run_gaf_side_padded(scratch, ("plain",), "bplain", aligned=bool(case.get("aligned")))
         v = tuple(case["variant"])
-        got = run_gaf_side_padded(scratch, v, "bvar")
+        got = run_gaf_side_padded(scratch, v, "bvar", aligned=bool(case.get("aligned")))
         compare(res, base, got, f">64 KiB file, {v[0]}", {"part": "big", "variant": list(v)})
     else:
         v = case["variant"]
